@@ -28,6 +28,7 @@ class Models(Simd):
         R(r"as core::iter::Iterator>::step_by$", self.m_step_by)
         R(r"as core::iter::Iterator>::filter::<", self.m_filter)
         R(r"as core::iter::Iterator>::map::<", self.m_map)
+        R(r"as core::iter::Iterator>::filter_map::<", lambda ip, fv, st, d, t, n, a, dty: ("it", "filtermap", self.as_it(ip, st, a[0]), a[1]) if self.as_it(ip, st, a[0])[0] == "it" else TOP)
         R(r"core::iter::once::<", lambda ip, fv, st, d, t, n, a, dty: ("it", "once", a[0], 0))
         R(r"as core::iter::Iterator>::chain::<", self.m_chain)
         R(r"as core::iter::Iterator>::cloned::<|as core::iter::Iterator>::copied::<", self.m_cloned)
@@ -327,6 +328,9 @@ class Models(Simd):
             elem = v[1] if v[1] is not None else TOP
             if v[3] == 0:
                 return ("en", ((0, ()),)), it
+            if v[2] >= 1:
+                # at least one element left: definitely Some
+                return ("en", ((1, (elem,)),)), ("it", "vecvals", ("vec", v[1], v[2] - 1, max(v[3] - 1, 0)))
             # owning iterator over a vector summary: any number of remaining elements
             return ("en", ((0, ()), (1, (elem,)))), ("it", "vecvals", ("vec", v[1], 0, v[3]))
         if k == "zip":
@@ -385,6 +389,33 @@ class Models(Simd):
                     newinner = ("it", "range", I(cur[1] + 1, end[2]), end, inner[4])
                     return ("en", ((0, ()), (1, (anyitem,)))), ("it", "filter", newinner)
             return TOP, None
+        if k == "filtermap":
+            inner, clo = it[2], it[3]
+            cur = inner
+            for _ in range(4):
+                item, new = self.step(ip, st, cur)
+                nxt = new if new is not None else cur
+                if item[0] != "en":
+                    return TOP, ("it", "filtermap", nxt, clo)
+                somes = [fs for v, fs in item[1] if v == 1]
+                may_end = any(v == 0 for v, _ in item[1])
+                if not somes:
+                    return ("en", ((0, ()),)), ("it", "filtermap", nxt, clo)
+                r = self.apply_closure(ip, st, clo, [somes[0][0]])
+                if r[0] != "en":
+                    return TOP, ("it", "filtermap", nxt, clo)
+                kept = [fs for v, fs in r[1] if v == 1]
+                dropped = any(v == 0 for v, _ in r[1])
+                if kept:
+                    outs = [(1, kept[0])]
+                    if may_end or dropped:
+                        outs.insert(0, (0, ()))
+                    return ("en", tuple(outs)), ("it", "filtermap", nxt, clo)
+                # every element is dropped by the closure: keep looking (or the end is reached)
+                if nxt == cur:
+                    return ("en", ((0, ()),)), ("it", "filtermap", nxt, clo)
+                cur = nxt
+            return ("en", ((0, ()),)), ("it", "filtermap", cur, clo)
         if k == "map":
             inner, clo = it[2], it[3]
             item, new = self.step(ip, st, inner)
@@ -502,12 +533,25 @@ class Models(Simd):
 
     def m_collect_vec(self, ip, fv, st, depth, t, n, a, dty):
         wrapped = re.search(r"collect::<core::(result::Result|option::Option)<", n)
-        v = self.collect_vec(ip, st, a[0], (0 if "result::Result" in wrapped.group(1) else 1) if wrapped else None)
+        okv = (0 if "result::Result" in wrapped.group(1) else 1) if wrapped else None
+        self._collect_flags = {"fail": False, "all_ok": True}
+        v = self.collect_vec(ip, st, a[0], okv)
+        fl = self._collect_flags
         if wrapped:
-            # Result<Vec<T>, E> / Option<Vec<T>>: Ok/Some is variant (0 for Result, 1 for Option)
+            # Result<Vec<T>, E> / Option<Vec<T>>: the failure variant is possible iff some item may be a failure; the success variant
+            # is possible iff every inspected item may be a success
+            outs = []
             if "result::Result" in wrapped.group(1):
-                return ("en", ((0, (v,)), (1, (TOP,))))
-            return ("en", ((0, ()), (1, (v,))))
+                if fl["all_ok"]:
+                    outs.append((0, (v,)))
+                if fl["fail"]:
+                    outs.append((1, (TOP,)))
+            else:
+                if fl["fail"]:
+                    outs.append((0, ()))
+                if fl["all_ok"]:
+                    outs.append((1, (v,)))
+            return ("en", tuple(outs)) if outs else ip.default_value(dty)
         return v
 
     def iter_len(self, ip, st, it):
@@ -642,6 +686,8 @@ class Models(Simd):
 
     def collect_vec(self, ip, st, it, wrapped):
         if it[0] != "it":
+            if getattr(self, "_collect_flags", None) is not None:
+                self._collect_flags["fail"] = True       # unknown iterator: a failure item cannot be excluded
             return ("vec", TOP, 0, 2**32)
         n_lo, n_hi = self.iter_len(ip, st, it)
         r = self.collect_vec1(ip, st, it, wrapped)
@@ -652,6 +698,8 @@ class Models(Simd):
         for _ in range(4):
             item, new = self.step(ip, st, it)
             if item[0] != "en":
+                if getattr(self, "_collect_flags", None) is not None:
+                    self._collect_flags["fail"] = True
                 return ("vec", TOP, 0, 2**32)
             somes = [fs for v, fs in item[1] if v == 1]
             if not somes:
@@ -660,8 +708,16 @@ class Models(Simd):
             if wrapped is not None:
                 # the items are Result<T,E> / Option<T>: keep the success payloads (variant index `wrapped`)
                 if e[0] != "en":
+                    if getattr(self, "_collect_flags", None) is not None:
+                        self._collect_flags["fail"] = True
                     return ("vec", TOP, 0, 2**32)
                 oks = [fs[0] for v, fs in e[1] if v == wrapped and len(fs) == 1]
+                fl = getattr(self, "_collect_flags", None)
+                if fl is not None:
+                    if any(v != wrapped for v, _ in e[1]):
+                        fl["fail"] = True
+                    if not oks and not any(vv == 0 for vv, _ in item[1]):
+                        fl["all_ok"] = False      # an item that is definitely present is definitely a failure
                 if not oks:
                     it = new if new is not None else it
                     continue
